@@ -23,7 +23,10 @@ LEVEL_NOTE = ("The theorems are about Model/FileDisk.v (hand-written model of pk
               "the theorem: hash injective on the names in use (StoreSpec keys mailboxes by name, the disk by SHA-1 directory); disk_fresh = "
               "b-store's file_fresh (the generator offers an id that is neither in the mailbox nor was issued to it before — an input here, a "
               "modelled clock + gen_loop there; it is exactly what the open finding violates); c_max = 0; a round-tripping encoding of the "
-              "message descriptor (date, tag, size) into info/body; cap eviction needs none (both evict the mailbox's oldest first).")
+              "message descriptor (date, tag, size) into info/body; cap eviction needs none (both evict the mailbox's oldest first). "
+              "The conc stream's overlap of readers is NOT in the model (store concurrency is C09's): reads do not change the ordered map "
+              "(reopen_transparent, ops_refine_ordered_map), so the stream is judged by the property clause — every reader of the reopened "
+              "store sees the listing — on sampled, timing-dependent overlaps.")
 TECHNIQUE = "machine-checked proof in Coq + model/code correspondence check"
 DESIGN_REF = "DESIGN.md §4 C10"
 RULE = ("hist: 5 fixed histories (the deliver / restart / deliver program of finding 14 and variations), 200 (thorough 5000) random "
@@ -39,7 +42,11 @@ RULE = ("hist: 5 fixed histories (the deliver / restart / deliver program of fin
         "'deliver to a mailbox that does not exist yet, below a first-level directory of its own; [t;] v', and v / t also occur at random "
         "positions; the walk must yield exactly the non-empty mailboxes of the ordered-map oracle, the scan must remove exactly the expired "
         "messages of ALL mailboxes. The harness's own views (state before/after a reopen, live-vs-fresh) come from separate freshly "
-        "constructed store objects; the object under test is never walked by the harness.")
+        "constructed store objects; the object under test is never walked by the harness. "
+        "conc: a mailbox of n (250, 40; thorough also 100-400) messages, then several incarnations, each a REAL process whose FIRST accesses to the "
+        "mailbox are k (2-8) readers released together from a barrier (GetMessages / GetMessage by id and latest / VisitMailboxes; GOMAXPROCS "
+        "untouched), then one mutation, then the next restart; every reader must see exactly the ordered map's listing, no operation may panic, "
+        "and a fresh store must read the ordered-map state after every incarnation (a garbled index written back is seen there).")
 TRUSTED = ["encoding/gob round trip: dec (enc i) = Some i (section hypothesis)",
            "SHA-1 (HashMailboxName) does not collide on the mailbox names in use (hypothesis hash_inj of filedisk_refines_storespec)",
            "the real Store object holds no mailbox state between calls (sampled by the correspondence run: state before = state after every reopen)"]
@@ -49,7 +56,7 @@ NOT_PROVED = ["removed_stay_gone_stmt (Proofs/FileDiskWitness.v): the unguarded 
 
 
 def nontrivial(kind, ins, outs):
-    if kind == "reissue":
+    if kind in ("reissue", "conc"):
         return True
     return kind == "hist" and ("R" in ins[2].split(",") or "X" in ins[2].split(",")) and any(o.startswith("res=") and "k" in o for o in outs)
 
